@@ -17,7 +17,7 @@
 From Coq Require Import ZArith QArith List Bool Lia.
 From VL Require Import Prelude.PyDict Model.Divisor Model.HighestAverages Model.Biprop Model.BipropLoop
      Proofs.Dict_proofs Proofs.Divisor_proofs Proofs.Biprop_proofs Proofs.Biprop_steps Proofs.BipropRow_proofs
-     Proofs.BipropLoop_proofs Proofs.BipropInit_proofs.
+     Proofs.BipropLoop_proofs Proofs.BipropInit_proofs Proofs.BipropProgress_proofs.
 Import ListNotations.
 Open Scope Z_scope.
 
@@ -247,6 +247,20 @@ Proof.
     [discriminate|reflexivity|reflexivity|exact sainte_lague_signposts].
 Qed.
 
+(* 7. a progress measure (NOT a termination proof): the flaw count - the sum over the districts of |seats held - seats due| -
+      drops by exactly 2 with every seat transfer, which leaves the multipliers alone; a multiplier update leaves the seat
+      matrix, hence the flaw count, alone.  At most flaw/2 transfers can happen; the number of consecutive multiplier
+      updates is not bounded here (Pukelsheim's argument: every update labels one more row or column) *)
+Theorem C07_transfer_progress : forall q votes pseats tgt dorder s s', (q < 1)%Q -> wf_votes votes -> NoDup dorder ->
+  BInv q votes pseats s -> bstep q votes tgt dorder s = Next s' ->
+  (flaw tgt dorder (b_res s') = flaw tgt dorder (b_res s) - 2 /\ b_rho s' = b_rho s /\ b_gamma s' = b_gamma s) \/
+  b_res s' = b_res s.
+Proof. intros q votes pseats tgt dorder s s' Hq1 Hwf Hdo. exact (bstep_progress q Hq1 votes Hwf pseats tgt dorder Hdo s s'). Qed.
+Definition C07_termination_full_statement : Prop := forall d q k votes n tgt dorder,
+  (0 <= q)%Q -> (q < 1)%Q -> (0 < k)%Q -> (forall z, d z == k * (inject_Z z + 1 - q))%Q ->
+  wf_votes votes -> (forall i j, 0 <= mget votes i j) -> NoDup dorder ->
+  exists fuel, evaluate_core d q votes tgt dorder n fuel <> BP_out_of_fuel.
+
 (* the hypothesis "some vote is positive" cannot be dropped: on a matrix without a single vote the faithful model (like
    the implementation: known finding C07-all-zero) returns a matrix with a seat in a cell without votes *)
 Definition zero_votes : mat := [(1%positive, [(1%positive, 0)]); (2%positive, [(1%positive, 0)])].
@@ -336,3 +350,4 @@ Print Assumptions C07_evaluate_total_partial_correct.
 Print Assumptions C07_d_hondt_partial_correct.
 Print Assumptions C07_sainte_lague_partial_correct.
 Print Assumptions C07_all_zero_refuted.
+Print Assumptions C07_transfer_progress.
